@@ -29,12 +29,13 @@ COUNTER_FIELDS = {("UringSubmissionQueue", "head"), ("UringSubmissionQueue", "ta
 
 
 def run(ck, progs, tier):
-    from .c18 import check_index_array
+    from .c18 import check_index_array, check_ring_geometry
     for cfgname, prog in progs.items():
         ck.set_config(prog)
         run_one(ck, prog)
         # C17.7 every submission slot maps to its own entry (sq_array is the identity over the kernel's ring)
         check_index_array(ck, prog, "C17.7")
+        check_ring_geometry(ck, prog, "C17.7")
     # type-level witnesses (compile_fail doctests with compiling twins) against the public API of the tree under analysis
     from ..engine import witness
     witness.check(ck, ck.repo, "C17", "C17.6")
@@ -131,6 +132,7 @@ def run_one(ck, prog):
     check_slot_capacity(ck, prog, "C17.2")
     c = prog.ctx(fns["get_next_cqe"])
     check_cqe_index(ck, prog, "C17.2")
+    check_flush_publishes(ck, prog, "C17.2")
     for helper in ("sync_ktail_release", "sync_ktail_relaxed"):
         hf = prog.fns.get(Q + "UringSubmissionQueue::" + helper)
         if ck.anchor("C17.2", helper, hf):
@@ -262,6 +264,48 @@ def shape_masked_shift(e, prov, field, loader=None):
     else:
         has_src = any(mentions(x, prov, lambda z: z[0] == "call" and (z[1] or "").endswith(loader)) for x in sides)
     return has_mask and has_src
+
+
+def check_flush_publishes(ck, prog, rule):
+    """flush leaves the kernel tail unpublished only when nothing was queued: the only way round the sync_ktail_* helpers is the
+    edge on which the private head EQUALS the private tail (free-running counters - a masked distance is 0 for a full ring too).
+    Shared by C17.2 and C18.6."""
+    f = prog.fns.get(URING + "flush_submission_queue")
+    if not ck.anchor(rule, "flush_submission_queue", f):
+        return
+    c = prog.ctx(f)
+    pubs = {bb for bb, t in c.cfg.calls(lambda t: (t.get("callee") or "").endswith(("sync_ktail_release", "sync_ktail_relaxed")))}
+    ck.ob(rule, "flush|anchor|publish-sites", len(pubs) >= 1, fn=c.path, detail=f"calls of the kernel-tail publishers: {len(pubs)}")
+
+    def raw(e, field):
+        e = strip_casts(e)
+        return isinstance(e, tuple) and mentions(e, c.prov, lambda z: z[0] == "field" and z[2] == field and (z[3] or "").endswith("UringSubmissionQueue")) and \
+            not mentions(e, c.prov, lambda z: z[0] in ("bin", "call"))
+
+    def equal_fact(fct):
+        if fct[0] != "cmp" or fct[1] != "Eq":
+            return False
+        a, b = fct[2], fct[3]
+        if (raw(a, "head") and raw(b, "tail")) or (raw(a, "tail") and raw(b, "head")):
+            return True
+        for x, y in ((a, b), (b, a)):
+            d = strip_casts(x)
+            if const_value(y) == 0 and isinstance(d, tuple) and d[0] == "call" and (d[1] or "").endswith("u32>::wrapping_sub") and \
+                    {True} == {(raw(d[2][0], "head") and raw(d[2][1], "tail")) or (raw(d[2][0], "tail") and raw(d[2][1], "head"))}:
+                return True
+        return False
+    eq_edges = set()
+    for sb in c.cfg.live_blocks():
+        if c.cfg.term(sb)["k"] != "switch":
+            continue
+        for e in c.cfg.succ[sb]:
+            if any(equal_fact(fct) for fct in c.edge_facts(e)):
+                eq_edges.add((e.src, e.dst))
+    r = c.cfg.reachable_from(0, avoid=pubs, avoid_edges=eq_edges)
+    bad = [rb for rb in c.cfg.return_blocks() if rb in r]
+    path = c.cfg.find_path(0, lambda b: b in bad, avoid=pubs) if bad else None
+    ck.ob(rule, "flush|tail-unpublished-only-when-head-equals-tail", bool(pubs) and not bad, fn=c.path, path=c.cfg.render_path(path) if path else None,
+          detail="flush_submission_queue can return without publishing the tail although head == tail was not established: queued entries (for instance a completely filled ring, whose masked distance is 0) are never shown to the kernel")
 
 
 def check_slot_capacity(ck, prog, rule):
